@@ -287,7 +287,7 @@ type byzRun struct {
 }
 
 func unitC07byz(e common.Env, p *common.Part) {
-	p.Rule = "Byzantine members are one or more real disc.Member instances under the same identifier with filtered inputs and re-routed outputs, following targeted plans under which honest members can still complete: partition-and-lie (one Byzantine instance per honest group, partition healed at a PRNG instant), shadow coalition (Byzantine instances that hear only each other and a phantom of a silent member), two-faced without partition, outsider and member replaying every captured transmission under their own identity, response flood (several instances of one identifier answer replayed queries with different views after the victim completed), late surplus announcer (one member more than expected joins at a PRNG instant around the moment the views converge) surplus at a decision point (the victim is held at a verif point of Synchronize while the surplus member announces itself) and view rewrite at a decision point (while the victim is held there, a second instance of a session member that only ever heard silent phantoms announces a different view of the same length to it), mirror (a member whose every transmission to X carries, under its real tag, exactly the list X itself announced or queried last) and crafted lists (its lists are replaced by permuted, duplicated, truncated, padded, empty or 30000-entry lists) and confusable views (its announcements carry the destination's own latest list with entries replaced by values that a sloppy comparison or encoding could confuse with them: the same decimal digits split elsewhere, identifiers from the UTF-16 surrogate range, the same low byte, the same high byte, byte-swapped; its responses mirror the queried list) and answering for a silent member (a configured member that talks to the Byzantine member only; the Byzantine member re-sends everything it receives from it to the honest members over its own link) and retry after a failed call (all honest: a member whose call fails after it has acknowledged the others' lists calls Synchronize again on the same topic, on the same object, together with late members); distinct key = (plan, parameters, seed); non-trivial when an honest member completed or a Byzantine transmission was processed by an honest member"
+	p.Rule = "Byzantine members are one or more real disc.Member instances under the same identifier with filtered inputs and re-routed outputs, following targeted plans under which honest members can still complete: partition-and-lie (one Byzantine instance per honest group, partition healed at a PRNG instant), shadow coalition (Byzantine instances that hear only each other and a phantom of a silent member), two-faced without partition, outsider and member replaying every captured transmission under their own identity, response flood (several instances of one identifier answer replayed queries with different views after the victim completed), late surplus announcer (one member more than expected joins at a PRNG instant around the moment the views converge) surplus at a decision point (the victim is held at a verif point of Synchronize while the surplus member announces itself) and view rewrite at a decision point (while the victim is held there, a second instance of a session member that only ever heard silent phantoms announces a different view of the same length to it), mirror (a member whose every transmission to X carries, under its real tag, exactly the list X itself announced or queried last) and crafted lists (its lists are replaced by permuted, duplicated, truncated, padded, empty or 30000-entry lists, or the type byte of its otherwise untouched transmissions by 0, 4, 5, 0x7f, 0x80, 0xff) and confusable views (its announcements carry the destination's own latest list with entries replaced by values that a sloppy comparison or encoding could confuse with them: the same decimal digits split elsewhere, identifiers from the UTF-16 surrogate range, the same low byte, the same high byte, byte-swapped; its responses mirror the queried list) and answering for a silent member (a configured member that talks to the Byzantine member only; the Byzantine member re-sends everything it receives from it to the honest members over its own link) and retry after a failed call (all honest: a member whose call fails after it has acknowledged the others' lists calls Synchronize again on the same topic, on the same object, together with late members); distinct key = (plan, parameters, seed); non-trivial when an honest member completed or a Byzantine transmission was processed by an honest member"
 	plans := []string{"partition-and-lie", "shadow-coalition", "two-faced", "replay", "response-flood", "shadow-coalition", "partition-and-lie", "late-surplus-announcer", "surplus-at-decision-point", "surplus-at-decision-point", "view-rewrite-at-decision-point", "view-rewrite-at-decision-point", "mirror", "crafted-lists", "confusable-views", "confusable-views", "answering-for-a-silent-member", "retry-after-failed-call"}
 	n := e.Pick(400, 6000)
 	for i := 0; i < n; i++ {
@@ -778,7 +778,12 @@ func runByzPlan(plan string, idx int, rng *rand.Rand) byzRun {
 					return data
 				}
 			} else {
-				switch net.rint(8) {
+				switch net.rint(11) {
+				case 8, 9, 10: // the message type byte replaced by a value next to / far from the legal ones (tag and list untouched)
+					h2 := append([]byte{}, head...)
+					h2[0] = []byte{0, 4, 5, 0x7f, 0x80, 0xff}[net.rint(6)]
+					atomic.AddInt32(&crafted, 1)
+					return append(h2, list...)
 				case 0: // reversed
 					for i := len(list) - 2; i >= 0; i -= 2 {
 						nl = append(nl, list[i], list[i+1])
